@@ -132,10 +132,13 @@ fn gen_cfg(rng: &mut Rng, expose: bool) -> Cfg {
     // 1 configuration in 3: the corpus also holds tokens that are neither lexicon words nor compatible
     // with an unk.def entry (the trainer gives them feature-less labels of their own)
     let virtual_tokens = rng.chance(1, 3);
+    let mut virtual_feats: Vec<String> = vec![];
     if virtual_tokens {
         for _ in 0..1 + rng.below(2) {
             let (s, f) = rng.pick(&rows);
-            corpus.push_str(&format!("{}\t{}\n{}\t感動詞,未知{}\n", s, f, rng.pick(&["zq", "猫犬", "q"][..]), rng.below(3)));
+            let vf = format!("感動詞,未知{}", rng.below(3));
+            corpus.push_str(&format!("{}\t{}\n{}\t{}\n", s, f, rng.pick(&["zq", "猫犬", "q"][..]), vf));
+            virtual_feats.push(vf);
             if rng.chance(1, 2) { let (s, f) = rng.pick(&rows); corpus.push_str(&format!("{}\t{}\n", s, f)); }
             corpus.push_str("EOS\n");
         }
@@ -145,6 +148,9 @@ fn gen_cfg(rng: &mut Rng, expose: bool) -> Cfg {
     { let (_, f) = rng.pick(&rows); user.push_str(&format!("uz,0,0,0,{}\n", f)); }
     // ... and one with the SURFACE and the features of a seed word (must get that word's cost as well)
     { let (sf, f) = rng.pick(&rows); if sf.chars().count() < 100 { user.push_str(&format!("{},0,0,0,{}\n", quote(sf), f)); } }
+    // a 0,0,0 user word with the features of a corpus token that no lexicon word has: its label carries the weights
+    // that token earned in training and can be the heaviest of the whole model
+    for (j, vf) in virtual_feats.iter().enumerate() { user.push_str(&format!("uv{},0,0,0,{}\n", j, vf)); }
     // 0,0,0 user words whose columns are taken from different seed rows: such a combination can outweigh every seed
     // word, so that the largest absolute weight of the model belongs to a user label
     for j in 0..2 + rng.below(3) {
